@@ -189,7 +189,9 @@ CONSTANTS Hosts,      \* set of host byte strings
           Protos, Ports, Nexts, Export
 
 Shapes == {"plain", "padded-varints", "trailing-bytes", "long-frame-varint"}
-Delivery == {"one-segment", "handshake-first", "byte-by-byte"}
+\* "grouped": three such cases run concurrently (each through its own proxy), the forwarding
+\* goroutines held after the handshake re-encode until all have re-encoded
+Delivery == {"one-segment", "handshake-first", "byte-by-byte", "grouped"}
 
 VARIABLES c
 Init == c \in [host : Hosts, proto : Protos, port : Ports, next : Nexts,
